@@ -96,6 +96,16 @@ func directiveTruncate(value data.Value, args []data.Value) data.Value {
 		}
 	}
 
+	// The limit counts characters the way the javascript backend does (UTF-16
+	// code units), so that both backends print the same text.
+	var units []uint16
+	if utf8.ValidString(str) {
+		units = utf16.Encode([]rune(str))
+		if len(units) <= maxLen {
+			return value
+		}
+	}
+
 	if ellipsis {
 		if maxLen > 3 {
 			maxLen -= 3
@@ -104,11 +114,20 @@ func directiveTruncate(value data.Value, args []data.Value) data.Value {
 		}
 	}
 
-	for maxLen > 0 && !utf8.RuneStart(str[maxLen]) {
-		maxLen--
+	if units != nil {
+		// don't cut a surrogate pair in half.
+		if maxLen > 0 && utf16.IsSurrogate(rune(units[maxLen-1])) && utf16.IsSurrogate(rune(units[maxLen])) &&
+			units[maxLen-1] < 0xDC00 && units[maxLen] >= 0xDC00 {
+			maxLen--
+		}
+		str = string(utf16.Decode(units[:maxLen]))
+	} else {
+		// not valid UTF-8: cut the bytes, at a rune boundary.
+		for maxLen > 0 && !utf8.RuneStart(str[maxLen]) {
+			maxLen--
+		}
+		str = str[:maxLen]
 	}
-
-	str = str[:maxLen]
 	if ellipsis {
 		str += "..."
 	}
